@@ -81,7 +81,7 @@ Definition write_string (s : bytes) (st : mw) : mw :=
 (* msgWriter.writeHeader: two writeString calls; returns the line count *)
 Definition mw_write_header (key : bytes) (values : list bytes) (st : mw) : mw * nat :=
   match values with
-  | [] => (st, 1)
+  | [] => (st, 0)            (* nothing written, nothing counted (after fix ee76554) *)
   | _ => let s := wh_buffer key values in
          (write_string crlf (write_string s st), S (count_crlf s))
   end.
